@@ -22,7 +22,13 @@ pub enum GenStep {
 }
 
 pub fn reply_spec() -> impl Strategy<Value = ReplySpec> {
-    let field = ("[a-z]{1,6}", "[a-zA-Z0-9 :]{0,10}");
+    // field names: short lower-case words, and now and then names that START like a protocol keyword
+    // (a response line is a terminator only if it IS the keyword)
+    let name = prop_oneof![
+        10 => "[a-z]{1,6}".boxed(),
+        1 => prop_oneof![Just("list_OK"), Just("list_OKAY"), Just("list_OK_count"), Just("list_ok"), Just("OK"), Just("OKAY"), Just("OK_"), Just("ACK"), Just("ACKed")].prop_map(str::to_string).boxed(),
+    ];
+    let field = (name, "[a-zA-Z0-9 :]{0,10}");
     prop_oneof![
         6 => (
             prop::collection::vec(field, 0..4usize),
